@@ -77,13 +77,20 @@ def order_s(draw, allow_none=True):
 # interface wirings of two contracts
 
 WIRINGS = ["independent", "cascade12", "cascade21", "shared_in", "feedback", "mixed"]
-WIRINGS_W = ["cascade12", "cascade21", "mixed", "independent", "cascade12", "cascade21", "shared_in", "feedback", "mixed", "cascade12"]
+WIRINGS_W = ["cascade12", "cascade21", "mixed", "independent", "cascade12", "cascade21", "shared_in", "feedback", "mixed", "cascade3"]
 
 
 @st.composite
 def wiring_s(draw, kinds=WIRINGS):
     w = draw(st.sampled_from(kinds))
     n = lambda lst, lo=1: lst[:draw(st.integers(lo, len(lst)))]  # noqa: E731
+    if w == "cascade3":
+        # three interconnection variables: terms over all of them need multi-variable eliminations
+        i1, o1 = n(["i1", "j1"]), ["m", "n", "k"] + n(["o1"], 0)
+        i2, o2 = ["m", "n", "k"] + n(["i2"], 0), n(["o2", "p2"])
+        if draw(st.booleans()):
+            i1, o1, i2, o2 = i2, o2, i1, o1
+        return {"kind": "cascade3", "i1": i1, "o1": o1, "i2": i2, "o2": o2}
     if w == "independent":
         i1, o1, i2, o2 = n(["i1", "j1"]), n(["o1", "p1"]), n(["i2", "j2"]), n(["o2"])
     elif w == "cascade12":
@@ -146,6 +153,19 @@ def coupled_contract_s(draw, ins, outs, w, assume_on=None, dyadic=True):
             if a != b and draw(st.integers(0, 2)) > 0:
                 co = {a: draw(st.sampled_from([1, 1, 2, -1])), b: -draw(st.sampled_from([1, 2, 3, 0.5]))}
                 g.append([co, float(dot(co, w) + draw(st.sampled_from([0, 0, 1, 2])))])
+    if len(outs) >= 2 and draw(st.booleans()):
+        # Kaykobad-like block: one row per output, all outputs with the same sign, dominant diagonal, small couplings
+        sg = draw(st.sampled_from([1, -1]))
+        if draw(st.booleans()):
+            base["g"] = []        # the block is then the only information about the outputs
+        for a in outs:
+            co = {a: sg * draw(st.sampled_from([1, 1, 2]))}
+            for b in outs:
+                if b != a and draw(st.integers(0, 3)) > 0:
+                    co[b] = sg * draw(st.sampled_from([0.25, 0.5, 0.75, 0.9, 0.6]))
+            if ins and draw(st.integers(0, 3)) > 0:
+                co[draw(st.sampled_from(ins))] = draw(coef_s(dyadic))
+            g.append([co, float(dot(co, w) + draw(st.sampled_from([0, 0, 1])))])
     for _ in range(draw(st.integers(0, 2))):
         k = draw(st.integers(2, min(4, len(allv)))) if len(allv) >= 2 else 1
         vs = draw(st.lists(st.sampled_from(allv), min_size=k, max_size=k, unique=True))
@@ -165,6 +185,8 @@ def contract_pair_s(draw, kinds=WIRINGS_W, dyadic=True, feedback_assumptions=Fal
     names = sorted(set(wr["i1"] + wr["o1"] + wr["i2"] + wr["o2"]))
     w = draw(witness_s(names))
     content = draw(st.sampled_from(["structured", "structured", "wild", "half", "coupled", "coupled"]))
+    if wr["kind"] == "cascade3":
+        content = "coupled"
     ao1, ao2 = None, None
     if wr["kind"] == "feedback" and not feedback_assumptions:
         ao1 = [v for v in wr["i1"] if v not in wr["o2"]]
@@ -177,8 +199,11 @@ def contract_pair_s(draw, kinds=WIRINGS_W, dyadic=True, feedback_assumptions=Fal
         # the consumer mentions all the variables it shares with the producer in one term
         for prod, cons in ((c1, c2), (c2, c1)):
             sh = [v for v in prod["o"] if v in cons["i"]]
-            if len(sh) >= 2 and draw(st.booleans()):
+            if len(sh) >= 2 and (draw(st.booleans()) or len(sh) >= 3):
                 co = {v: draw(coef_s(dyadic)) for v in sh}
+                if draw(st.booleans()):
+                    sg = draw(st.sampled_from([1, -1]))
+                    co = {v: sg * draw(st.sampled_from([1, 1, 1, 2, 1.5])) for v in sh}
                 tgt = draw(st.sampled_from(cons["o"]))
                 co[tgt] = draw(st.sampled_from([1, -1, 2]))
                 cons["g"].append([co, float(dot(co, w) + draw(st.sampled_from(SLACKS)))])
